@@ -309,6 +309,56 @@ for _d, _np in ((3, 3), (3, 1), (3, 2), (1, 1)):
     scn(name=f"pad:tt{_d}.p{_np}.value", func="_extras.pad", props=("C09",),
         args=_pad_args(_d, _np, VScalar(Coef.sym("v"), "float")),
         presets={"scalar == 0": False}, check=closed_check(_pad_tt_expected(_d, _np, Coef.sym("v")), "pad(x, value)"))
+def _pad_ttm_expected(d, npad, value_coef):
+    """block-diagonal padding of the trailing `npad` mode pairs of an operator: the original block kept, the leading corner (every padded
+    row and column index in its leading strip) and the trailing corner hold value * identity, everything else is zero.  Axes: (m_1, n_1,
+    ..., m_d, n_d).  With a mode that is not padded the two corners are empty."""
+    def exp(sit, out):
+        sp = sit.sp
+        A = make_tt(sit, "A", True, d)
+        ops, outs = [], []
+        letters = iter("abcdefghijklmnopqrstuvwxyzABCDEFGH")
+        bond = next(letters)
+        for k in range(d):
+            m, n, nb = next(letters), next(letters), next(letters)
+            ops.append((sit.core(A, k), bond + m + n + nb))
+            outs += [m, n]
+            bond = nb
+        centre = expr(sit, ops, outs)
+        parts, ckey = [], []
+        for k in range(d):
+            j = k - (d - npad)
+            for ax in (2 * k, 2 * k + 1):
+                if j >= 0:
+                    parts.append([P.atom(f"lo{j}"), centre.axis_size(ax), P.atom(f"hi{j}")])
+                    ckey.append(1)
+                else:
+                    parts.append([centre.axis_size(ax)])
+                    ckey.append(0)
+        blocks = {tuple(ckey): centre}
+        if npad == d and value_coef is not None:
+            for side, nm in ((0, "lo"), (2, "hi")):
+                eyes = [(net.eye_tensor(sp, P.atom(f"{nm}{j}")), "abcdefghijklmnop"[2 * j:2 * j + 2]) for j in range(d)]
+                blocks[tuple([side] * (2 * d))] = expr(sit, eyes, list("abcdefghijklmnop"[:2 * d]), value_coef)
+        return Block(sp, parts, blocks)
+    return exp
+
+
+def _pad_ttm_args(d, n, value):
+    def mk(it):
+        for j in range(n):
+            it.facts.lb[f"lo{j}"] = 0
+            it.facts.lb[f"hi{j}"] = 0
+        return None, [make_tt(it, "A", True, d), _padding(n)], {"value": value}
+    return mk
+
+
+for _d, _np, _tier in ((1, 1, "quick"), (2, 2, "quick"), (3, 3, "thorough"), (2, 1, "quick"), (3, 2, "thorough"), (3, 1, "thorough")):
+    scn(name=f"pad:ttm{_d}.p{_np}.value", func="_extras.pad", props=("C09",), tier=_tier,
+        args=_pad_ttm_args(_d, _np, VScalar(Coef.sym("v"), "float")),
+        presets={"scalar == 0": False}, check=closed_check(_pad_ttm_expected(_d, _np, Coef.sym("v")), "pad(A, value) of an operator"))
+    scn(name=f"pad:ttm{_d}.p{_np}.zero", func="_extras.pad", props=("C09",), tier=_tier,
+        args=_pad_ttm_args(_d, _np, VFloat(0.0)), check=closed_check(_pad_ttm_expected(_d, _np, None), "pad(A, 0) of an operator"))
 scn(name="pad:too-many", func="_extras.pad", props=("C18",), must_raise=True, min_returns=0,
     args=lambda it: (None, [make_tt(it, "x", False, 2), _padding(3)], {}), check=raises_check)
 
